@@ -26,7 +26,10 @@ def generate(ctx):
              "B": rng.randint(1, 3), "T": rng.randint(6, 14), "signs": rng.randrange(4), "reduction": rng.choice(["sum", "sum", "mean", "amax"]),
              "reward": rng.choice(["scalar+", "scalar-", "tensor", "tensor"]), "scale": rng.choice([1.0, 0.5]),
              "p": rng.choice([0.2, 0.4, 0.7]), "seed": rng.randrange(1 << 30), "delay": rng.choice([1, 2, 3]),
-             "delay_values": rng.choice(["ongrid", "offgrid", "zero"]), "reassign_delays": rng.random() < 0.4}
+             "delay_values": rng.choice(["ongrid", "offgrid", "zero"]), "reassign_delays": rng.random() < 0.4,
+             "per_cell": rng.random() < 0.4,
+             "tensor_kwargs": rng.choice([[], [], ["post_learning_rate"], ["post_time_constant", "pre_learning_rate"],
+                                          ["post_learning_rate", "post_time_constant"], ["pre_time_constant"]])}
         if name == "KernelSTDP":
             d["delay"] = rng.choice([None, 2, 3])
             d["delayed"] = bool(d["delay"]) and rng.random() < 0.5
@@ -35,7 +38,8 @@ def generate(ctx):
             d["reduction"] = "sum"
         yield d
     for i in range(400 if th else 16):
-        yield {"part": "cross", "pair": i % 2, "conn": rng.choice(["dense", "direct", "lateral", "conv"]), "dt": rng.choice([1.0, 0.5]),
+        yield {"part": "cross", "pair": i % 2, "tensor_kwargs": rng.choice([[], ["post_learning_rate", "post_time_constant"], ["pre_learning_rate"]]),
+               "conn": rng.choice(["dense", "direct", "lateral", "conv"]), "dt": rng.choice([1.0, 0.5]),
                "B": rng.randint(1, 2), "T": rng.randint(6, 12), "signs": rng.randrange(4), "p": rng.choice([0.3, 0.6]),
                "seed": rng.randrange(1 << 30), "delay_values": rng.choice(["ongrid", "offgrid"])}
     for i in range(300 if th else 12):
@@ -93,10 +97,13 @@ def run_case(ctx, desc):
 def _formula(ctx, desc):
     name = desc["trainer"]
     a, b = c08.SIGNS[desc["signs"]]
-    hyper = {"lr_a": a, "lr_b": b, "delayed": desc.get("delayed", False)}
+    hyper = {"lr_a": a, "lr_b": b, "delayed": desc.get("delayed", False), "tensor_kwargs": desc.get("tensor_kwargs", [])}
     red = desc["reduction"]
     h = tr.Harness(name, desc["conn"], dt=desc["dt"], B=desc["B"], delay_steps=desc["delay"], seed=desc["seed"],
-                   batch_reduction=c08.RED[red], hyper=hyper, dtype=torch.float64, max_delay_steps=(3 if desc["delay"] else None))
+                   batch_reduction=c08.RED[red], hyper=hyper, dtype=torch.float64, max_delay_steps=(3 if desc["delay"] else None),
+                   per_cell=desc.get("per_cell", False))
+    if desc.get("tensor_kwargs") and "Kernel" in name:
+        ctx.count("tensor_valued_kernel_kwargs_cases")
     g = torch.Generator().manual_seed(desc["seed"] + 5)
     _set_delays(h, desc["delay_values"], g)
     orc = tr.Oracle(name, desc["conn"], h.conn, h.dt, hyper, red)
@@ -142,7 +149,7 @@ def _formula(ctx, desc):
 def _cross(ctx, desc):
     kname, dname = PAIRS[desc["pair"]]
     a, b = c08.SIGNS[desc["signs"]]
-    hyper = {"lr_a": a, "lr_b": b}
+    hyper = {"lr_a": a, "lr_b": b, "tensor_kwargs": desc.get("tensor_kwargs", [])}
     mk = lambda n: tr.Harness(n, desc["conn"], dt=desc["dt"], B=desc["B"], delay_steps=2, seed=desc["seed"],
                               batch_reduction=torch.sum, hyper=hyper, dtype=torch.float64, max_delay_steps=3)
     hk, hd = mk(kname), mk(dname)
